@@ -33,9 +33,12 @@ import (
 	"github.com/libp2p/go-libp2p/p2p/security/insecure"
 	"github.com/libp2p/go-libp2p/p2p/security/noise"
 	libp2ptls "github.com/libp2p/go-libp2p/p2p/security/tls"
+	libp2pquic "github.com/libp2p/go-libp2p/p2p/transport/quic"
+	"github.com/libp2p/go-libp2p/p2p/transport/quicreuse"
 	"github.com/libp2p/go-libp2p/p2p/transport/tcp"
 	ma "github.com/multiformats/go-multiaddr"
 	manet "github.com/multiformats/go-multiaddr/net"
+	"github.com/quic-go/quic-go"
 
 	"verifsim/simnet"
 )
@@ -70,6 +73,12 @@ type Opts struct {
 	// connections (remote = the peer's source address) and outbound ones (remote = the dialled address).
 	Limited func(remote net.Addr) bool
 
+	// QUIC adds the real QUIC transport (p2p/transport/quic + quicreuse + quic-go) over simnet's UDP model, listening
+	// on /udp/<Port>/quic-v1 when Port != 0. NoTCPListen leaves the TCP transport dial-only.
+	QUIC        bool
+	QUICOpts    []libp2pquic.Option
+	NoTCPListen bool
+
 	WithHost bool // build a basic host on top of the swarm
 	HostOpts *basichost.HostOpts
 }
@@ -85,6 +94,8 @@ type Node struct {
 	Tpt    *Transport
 	Up     transport.Upgrader
 	Addr   ma.Multiaddr // listen address (nil when dial-only)
+	QAddr  ma.Multiaddr // QUIC listen address (nil without QUIC or when dial-only)
+	QUICCM *quicreuse.ConnManager
 	ownsPS bool
 }
 
@@ -262,13 +273,50 @@ func New(n *simnet.Net, o Opts) (*Node, error) {
 		nd.closePS()
 		return nil, err
 	}
-	if o.Port != 0 {
-		proto := "ip4"
-		if ip := net.ParseIP(o.IP); ip != nil && ip.To4() == nil {
-			proto = "ip6"
+	proto := "ip4"
+	if ip := net.ParseIP(o.IP); ip != nil && ip.To4() == nil {
+		proto = "ip6"
+	}
+	if o.QUIC {
+		// keys of the stateless-reset and token generators: a function of the node key
+		var srk quic.StatelessResetKey
+		var tk quic.TokenGeneratorKey
+		copy(srk[:], []byte("verifsim-srk-"+id.String()))
+		copy(tk[:], []byte("verifsim-tok-"+id.String()))
+		src := net.ParseIP(o.IP)
+		cm, err := quicreuse.NewConnManager(srk, tk,
+			quicreuse.OverrideListenUDP(n.UDPListenFunc(o.IP)),
+			quicreuse.OverrideSourceIPSelector(func() (quicreuse.SourceIPSelector, error) { return fixedSource{src}, nil }))
+		if err != nil {
+			sw.Close()
+			nd.closePS()
+			return nil, err
 		}
+		nd.QUICCM = cm
+		qt, err := libp2pquic.NewTransport(o.Key, cm, psk, o.Gater, nd.Rcmgr, o.QUICOpts...)
+		if err == nil {
+			err = sw.AddTransport(qt)
+		}
+		if err != nil {
+			cm.Close()
+			sw.Close()
+			nd.closePS()
+			return nil, err
+		}
+	}
+	if o.Port != 0 && !o.NoTCPListen {
 		nd.Addr = ma.StringCast(fmt.Sprintf("/%s/%s/tcp/%d", proto, o.IP, o.Port))
 		if err := sw.Listen(nd.Addr); err != nil {
+			nd.closeQUIC()
+			sw.Close()
+			nd.closePS()
+			return nil, err
+		}
+	}
+	if o.Port != 0 && o.QUIC {
+		nd.QAddr = ma.StringCast(fmt.Sprintf("/%s/%s/udp/%d/quic-v1", proto, o.IP, o.Port))
+		if err := sw.Listen(nd.QAddr); err != nil {
+			nd.closeQUIC()
 			sw.Close()
 			nd.closePS()
 			return nil, err
@@ -288,6 +336,7 @@ func New(n *simnet.Net, o Opts) (*Node, error) {
 		h, err := basichost.NewHost(sw, ho)
 		if err != nil {
 			sw.Close()
+			nd.closeQUIC()
 			nd.closePS()
 			return nil, err
 		}
@@ -295,6 +344,16 @@ func New(n *simnet.Net, o Opts) (*Node, error) {
 		h.Start()
 	}
 	return nd, nil
+}
+
+type fixedSource struct{ ip net.IP }
+
+func (f fixedSource) PreferredSourceIPForDestination(*net.UDPAddr) (net.IP, error) { return f.ip, nil }
+
+func (nd *Node) closeQUIC() {
+	if nd.QUICCM != nil {
+		nd.QUICCM.Close()
+	}
 }
 
 func (nd *Node) closePS() {
@@ -312,6 +371,7 @@ func (nd *Node) Close() {
 	} else {
 		nd.Swarm.Close()
 	}
+	nd.closeQUIC()
 	nd.closePS()
 }
 
@@ -319,7 +379,10 @@ func (nd *Node) Close() {
 func (nd *Node) AddrInfo() peer.AddrInfo {
 	ai := peer.AddrInfo{ID: nd.ID}
 	if nd.Addr != nil {
-		ai.Addrs = []ma.Multiaddr{nd.Addr}
+		ai.Addrs = append(ai.Addrs, nd.Addr)
+	}
+	if nd.QAddr != nil {
+		ai.Addrs = append(ai.Addrs, nd.QAddr)
 	}
 	return ai
 }
